@@ -4,9 +4,9 @@ from .ir import Ptr, NULL, UNDEF, sgn
 
 class SV:
     """symbolic integer (z3 Int term, signed canonical value of an iN) or boolean (z3 Bool, w == 1)"""
-    __slots__ = ('t', 'lo', 'hi', 'b', 'taint')
-    def __init__(s, t, lo, hi, b=None, taint=False):
-        s.t = t; s.lo = lo; s.hi = hi; s.b = b; s.taint = taint
+    __slots__ = ('t', 'lo', 'hi', 'b', 'taint', 'sz')
+    def __init__(s, t, lo, hi, b=None, taint=False, sz=1):
+        s.t = t; s.lo = lo; s.hi = hi; s.b = b; s.taint = taint; s.sz = sz
     def __repr__(s): return 'SV(%s,[%s,%s])' % (str(s.t)[:80], s.lo, s.hi)
 
 class SF:
@@ -60,3 +60,11 @@ def tainted(*vs):
     for v in vs:
         if isinstance(v, (SV, SF)) and v.taint: return True
     return False
+
+def szof(v): return v.sz if isinstance(v, SV) else 0
+SIMP_AT = 12
+def compact(v):
+    """keep arithmetic terms in z3's sum-of-monomials normal form so that long chains (x - a - b - ...) stay small"""
+    if v.sz > SIMP_AT:
+        v.t = z3.simplify(v.t, som=True); v.sz = 4
+    return v
